@@ -220,7 +220,8 @@ func (r *Reader) eachByte(b byte) {
 				}
 			*/
 			r.state = readerStateClean
-			if r.HandleSysex {
+			// sysex messages larger than the buffer are ignored
+			if r.HandleSysex && r.sysexlen < len(r.sysexBf) {
 				r.sysexBf[r.sysexlen] = b
 				r.sysexlen++
 				//go
@@ -247,7 +248,10 @@ func (r *Reader) eachByte(b byte) {
 		}
 
 		if r.HandleSysex {
-			r.sysexBf[r.sysexlen] = b
+			if r.sysexlen < len(r.sysexBf) {
+				r.sysexBf[r.sysexlen] = b
+			}
+			// keep counting, so that we know at the end that the buffer was too small
 			r.sysexlen++
 		}
 
